@@ -44,6 +44,9 @@ def unit_rac(eng):
         (["q = 3\n.extern q\n.extern q\n"], "fail", None),
         (["1$: nop\nX: br 1$\n"], "fail", None),
         (["A = 1\n.byte a\n"], "ok", "01"),
+        ([".extern all\nx == 37\n", ".byte x\n"], "ok", "1f"),
+        ([".extern all\na:: nop\n", "jmp a\n"], "ok", "a0007700faff"),
+        ([".extern all\nq == 3\n", "q == 4\n"], "fail", None),
     ]
     jobs = [{"kind": "asm", "sources": s} for s, _, _ in cases]
     res = driver.native(jobs, driver.tree_root())
